@@ -245,3 +245,29 @@ def run(ctx):
     from engine.strgrow import str_grow
     str_grow(ctx, prog)
 
+    ctx.rule('READF-ZERO', 'psf_binheader_readf clears the caller\'s target (`*ptr = 0` / memset (ptr, 0, n)) in every format arm before header_read fills it: after a short or failed read the '
+             'parser sees zeros, never the previous chunk\'s bytes or uninitialised memory (LOOP-IO relies on exactly this to conclude that parser loops notice a dead stream)', floor=9)
+    from engine.arms import switch_arm_stmts as _sas
+    from engine.util import assigned_lvalues as _alz
+    rf_ = prog.fn('psf_binheader_readf', 'common.c')
+    sws_ = [n for n in rf_.walk() if n['k'] == 'SwitchStmt']
+    ctx.require(sws_, 'psf_binheader_readf has no format switch')
+    nz_ = 0
+    for vals_, names_, hd_, stmts_ in _sas(rf_, sws_[0]):
+        reads_ = [c for st in stmts_ for c in rf_.calls(root=st) if c.get('callee') == 'header_read']
+        if not reads_:
+            continue
+        clears_ = []
+        for st in stmts_:
+            for lv, a, r in _alz(rf_, st):
+                if lv.startswith('*') and r is not None and (rf_.unwrap(r).get('v') == 0 or rf_.unwrap(r).get('fv') == 0.0):
+                    clears_.append(a)
+            for c in rf_.calls(root=st):
+                if c.get('callee') == 'memset' and rf_.unwrap(rf_.args(c)[1]).get('v') == 0:
+                    clears_.append(c)
+        ok_ = bool(clears_) and all(any((x['l'], x['c']) < (rd['l'], rd['c']) for x in clears_) for rd in reads_)
+        nz_ += 1
+        ctx.ob('READF-ZERO', "format '%s'" % ''.join(chr(v) for v in vals_ if 32 <= v < 127), ok_, rf_.loc(reads_[0]), 'target %s before the read' % ('cleared' if ok_ else
+               'NOT cleared: a failed read leaves stale bytes in the caller\'s variable / buffer, which the header parser then uses'), None)
+    ctx.require(nz_ >= 9, 'only %d reading format arms found' % nz_)
+
